@@ -42,7 +42,7 @@
        pair of segments in the list": not only the listed edges, and edges of
        every kind -- an E line is an edge whatever its alignment looks like).
 
-   THE RELAXED READING (Outcomes(D, o), SetMayFail / SetMayAnswer) collects what
+   THE RELAXED READING (Readings, PathWalks / PathMayFail, SetMayFail / SetMayAnswer) collects what
    can also be defended from the GFA2 text, which never defines "between":
      - cand: the implied edge may be looked for among ALL E lines joining the
        two oriented segments (gfapy) instead of among the dovetails only;
@@ -57,9 +57,11 @@
      reference): gfapy's treatment of the first segment of a nested path as
      "listed" even when an edge supplied it makes `b- p-` fail where `p+ b+`
      succeeds, and is a defect (groups-6), not a reading.
-   The trace specification accepts an answer of the implementation iff it is
-   an outcome of the relaxed reading; the strict answer is always one of them
-   (checked by TLC in MC_Groups: StrictInRelaxed).                            *)
+   A reading (Readings: cand x dir) is held for a whole path.  The trace
+   specification accepts a walk iff it is an outcome of some reading, and an
+   error iff under some reading the path has no walk at all (PathMayFail); the
+   strict answer is always acceptable (checked by TLC in MC_Groups:
+   StrictInRelaxed).                                                          *)
 EXTENDS Gfa
 
 -----------------------------------------------------------------------------
@@ -105,7 +107,6 @@ Canonical(e) ==
   /\ Oriented(Kind(e.num[1], e.num[2], e.num[3], e.num[4]), e.refs[1].o) = "sfx"
 
 Strict  == [cand |-> {"dovetail"}, dir |-> "syn"]
-Relaxed(dir) == [cand |-> {"dovetail", "all"}, dir |-> dir]
 
 \* the <<from, to>> pairs of oriented segments that traversing e as e^d joins.
 \*   dir = "syn"  the direction written on the E line (sid1 -> sid2)
@@ -185,15 +186,30 @@ WalksOf(D, R, items, stack) == FoldItems(D, R, {Good(<<>>, FALSE, FALSE)}, items
 
 \* every outcome the reading R allows for the ordered group named o
 PathOutcomes(D, R, o) == WalksOf(D, R, LineNamed(D, o).refs, {o})
-\* every outcome some defensible reading allows
-Outcomes(D, o) == UNION {PathOutcomes(D, Relaxed(dir), o) : dir \in {"syn", "geo", "free"}}
+\* the defensible readings: where the implied edge is looked for x which way an E line
+\* that is not a dovetail written exit -> entry may be travelled.  A reading is held
+\* for the whole path (and the paths nested in it).  Inside a reading the travelling
+\* direction of such an E line is a choice: the path HAS a walk when some choice gives one
+Readings == {[cand |-> {m}, dir |-> d] : m \in {"dovetail", "all"}, d \in {"syn", "geo", "free"}}
+\* the outcomes of the path o under every reading (evaluate once, pass down)
+ByReading(D, o) == [R \in Readings |-> PathOutcomes(D, R, o)]
+\* the walks that are acceptable answers: the outcomes of some reading
+WalksIn(B) == {r.w : r \in {x \in UNION {B[R] : R \in DOMAIN B} : x.ok}}
+\* an error is an acceptable answer: under some reading NO choice gives a walk.
+\* (Not: "some choice of some reading fails" -- a path that has a walk under every
+\* reading has to be answered with a walk, e.g. a nested path mentioned twice, or a
+\* first item that is an internal alignment followed by a path that starts at one
+\* of its two segments.)
+MayFailIn(B) == \E R \in DOMAIN B : \A r \in B[R] : ~r.ok
+PathWalks(D, o) == WalksIn(ByReading(D, o))
+PathMayFail(D, o) == MayFailIn(ByReading(D, o))
 
 \* the strict answer.  (Its outcomes differ at most in the orientation given to
 \* a supplied hairpin edge, which joins x to y read either way: any of them.)
-CapturedPath(D, o) ==
-  LET S == PathOutcomes(D, Strict, o) IN
+StrictAnswer(S) ==
   IF \E r \in S : r.ok THEN [ok |-> TRUE, walk |-> (CHOOSE r \in S : r.ok).w]
   ELSE [ok |-> FALSE, kind |-> (CHOOSE r \in S : TRUE).kind]
+CapturedPath(D, o) == StrictAnswer(PathOutcomes(D, Strict, o))
 
 \* (by position: a supplied edge may be an unnamed one, written "*")
 SegsOfWalk(D, w)  == [i \in 1..((Len(w) + 1) \div 2) |-> w[2 * i - 1]]
@@ -244,7 +260,7 @@ InducedSet(D, u) ==
 \* sets is cyclic (a definition the GFA2 text neither allows nor forbids)
 SetMayFail(D, u) ==
   \/ Unresolved(D, u) \/ BadSetItem(D, u) \/ SetInPath(D, u) \/ CyclicSets(D, u)
-  \/ \E p \in PathsReached(D, u) : \E r \in Outcomes(D, p) : ~r.ok
+  \/ \E p \in PathsReached(D, u) : PathMayFail(D, p)
 \* a set is an acceptable answer: the segments mentioned and all edges between them
 SetMayAnswer(D, u) == ~BadSetItem(D, u) /\ ~SetInPath(D, u)
 =============================================================================
